@@ -91,16 +91,6 @@ Proof.
 Qed.
 
 (* ---------------------------------------------------------------- F1: number of records *)
-(* full statement: after a successful wait the number of records covers every completed put to a record variable *)
-Definition numrecs_after_wait_full : Prop :=
-  forall ops a file, Forall nbop_ok ops ->
-    let st := fst (reach ops) in
-    let ex := extract_reqs st (wa_n a) (wa_ids a) (wa_has_stat a) (wa_stat0 a) in
-    let r := fst (wait_one isort_reqs isort_segs st a file) in
-    wr_rc r = NC_NOERR ->
-    forall l, In l (flagged (put_lead (ex_st ex))) -> g_isrec (l_geom l) = true ->
-              l_max_rec l <= st_numrecs (wr_st r).
-
 Definition fixed_then_record : list nbop :=
   [NPostM KIput gA [0] [4] None 1000 [0;0;0;1;0;0;0;2;0;0;0;3;0;0;0;4] false 0;
    NPostM KIput gB [5; 0] [1; 4] None 2000 [0;0;0;5;0;0;0;6;0;0;0;7;0;0;0;8] false 1].
@@ -109,24 +99,6 @@ Proof.
   apply Forall_cons; [|apply Forall_cons; [|apply Forall_nil]]; cbn [nbop_ok]; [apply post_ok_gA; lia | apply post_ok_gB; lia].
 Qed.
 
-(* witness: iput on the fixed variable (id 0), iput on record 5 of the record variable (id 2), wait naming
-   only id 2: the newnumrecs loop inspects lead 0 (the fixed variable, not flagged) and stops; numrecs stays 0 *)
-Theorem numrecs_after_wait_refuted : ~ numrecs_after_wait_full.
-Proof.
-  intro H.
-  pose (a := mkwa 1 [2] true [-99]).
-  specialize (H fixed_then_record a empty_disk fixed_then_record_ok).
-  cbv zeta in H.
-  assert (E : wr_rc (fst (wait_one isort_reqs isort_segs (fst (reach fixed_then_record)) a empty_disk)) = NC_NOERR)
-    by (vm_compute; reflexivity).
-  specialize (H E (znth (put_lead (ex_st (extract_reqs (fst (reach fixed_then_record)) (wa_n a) (wa_ids a) (wa_has_stat a) (wa_stat0 a)))) 1 dummy_lead)).
-  assert (C : l_max_rec (znth (put_lead (ex_st (extract_reqs (fst (reach fixed_then_record)) (wa_n a) (wa_ids a) (wa_has_stat a) (wa_stat0 a)))) 1 dummy_lead)
-              <= st_numrecs (wr_st (fst (wait_one isort_reqs isort_segs (fst (reach fixed_then_record)) a empty_disk)))).
-  { apply H; vm_compute; [left; reflexivity | reflexivity]. }
-  vm_compute in C. apply C. reflexivity.
-Qed.
-
-(* what does hold: the loop covers the flagged record requests among the first nwl leads, and never lowers numrecs *)
 Lemma fold_max_ge_init : forall (l : list lead) (f : lead -> bool) m,
   m <= fold_left (fun m x => if f x then Z.max m (l_max_rec x) else m) l m.
 Proof.
@@ -142,35 +114,43 @@ Proof.
   - apply IH; assumption.
 Qed.
 
-Theorem newnumrecs_covers_prefix : forall st nwl l,
-  In l (zfirstn nwl (put_lead st)) -> l_to_free l = true -> g_isrec (l_geom l) = true ->
-  l_max_rec l <= newnumrecs_loop st nwl /\ st_numrecs st <= newnumrecs_loop st nwl.
+(* the loop of req_commit covers every flagged request on a record variable and never lowers numrecs *)
+Theorem newnumrecs_covers_flagged : forall st l,
+  In l (put_lead st) -> l_to_free l = true -> g_isrec (l_geom l) = true ->
+  l_max_rec l <= newnumrecs_loop st /\ st_numrecs st <= newnumrecs_loop st.
 Proof.
-  intros st nwl l Hin Hf Hr. unfold newnumrecs_loop. split.
-  - apply (fold_max_ge_elem (zfirstn nwl (put_lead st)) (fun l => g_isrec (l_geom l) && l_to_free l)); [exact Hin|].
+  intros st l Hin Hf Hr. unfold newnumrecs_loop. split.
+  - apply (fold_max_ge_elem (put_lead st) (fun l => g_isrec (l_geom l) && l_to_free l)); [exact Hin|].
     rewrite Hr, Hf. reflexivity.
-  - apply (fold_max_ge_init (zfirstn nwl (put_lead st)) (fun l => g_isrec (l_geom l) && l_to_free l)).
+  - apply (fold_max_ge_init (put_lead st) (fun l => g_isrec (l_geom l) && l_to_free l)).
 Qed.
 
-(* numrecs after an independent wait, when the completed requests are the head of the queue
-   (all the "ALL" forms, or ids naming a prefix of the queue) and something is written *)
-Theorem numrecs_after_wait_partial : forall sr ss st a file,
-  let ex := extract_reqs st (wa_n a) (wa_ids a) (wa_has_stat a) (wa_stat0 a) in
-  let r := fst (wait_one sr ss st a file) in
-  ex_err ex = NC_NOERR -> 0 < Zlen (ex_put ex) ->
-  (forall l, In l (flagged (put_lead (ex_st ex))) -> In l (zfirstn (ex_nwl ex) (put_lead (ex_st ex)))) ->
-  forall l, In l (flagged (put_lead (ex_st ex))) -> g_isrec (l_geom l) = true ->
-            l_max_rec l <= st_numrecs (fst (commit_io sr ss (ex_st ex) (ex_put ex) (ex_get ex) true (0 <? Zlen (ex_get ex))
-                                                     (newnumrecs_loop (ex_st ex) (ex_nwl ex)) file)).
+(* the loop as it was before fix 186ba92c in /repo: it inspected the first num_w_lead_reqs (= the NUMBER of
+   requests being completed) entries of the queue.  Kept to show what the present statement excludes. *)
+Definition newnumrecs_loop_old (st : nbstate) (nwl : Z) : Z :=
+  fold_left (fun m l => if g_isrec (l_geom l) && l_to_free l then Z.max m (l_max_rec l) else m)
+            (zfirstn nwl (put_lead st)) (st_numrecs st).
+Definition newnumrecs_old_covers_flagged_full : Prop :=
+  forall ops a, Forall nbop_ok ops ->
+    let ex := extract_reqs (fst (reach ops)) (wa_n a) (wa_ids a) (wa_has_stat a) (wa_stat0 a) in
+    ex_err ex = NC_NOERR ->
+    forall l, In l (put_lead (ex_st ex)) -> l_to_free l = true -> g_isrec (l_geom l) = true ->
+              l_max_rec l <= newnumrecs_loop_old (ex_st ex) (ex_nwl ex).
+(* witness (finding F1, fixed): iput on the fixed variable (id 0), iput on record 5 of the record variable (id 2),
+   wait naming only id 2: the old loop inspects lead 0 (not flagged) and stops *)
+Theorem newnumrecs_old_refuted : ~ newnumrecs_old_covers_flagged_full.
 Proof.
-  intros sr ss st a file ex r Herr Hput Hpre l Hl Hrec.
-  assert (Hf : l_to_free l = true).
-  { unfold flagged in Hl. apply filter_In in Hl. apply Hl. }
-  destruct (newnumrecs_covers_prefix (ex_st ex) (ex_nwl ex) l (Hpre l Hl) Hf Hrec) as [H1 H2].
-  unfold commit_io. cbn [andb].
-  destruct (st_numrecs (ex_st ex) <? newnumrecs_loop (ex_st ex) (ex_nwl ex)) eqn:Elt.
-  - destruct (0 <? Zlen (ex_get ex)); cbn [fst set_mem set_numrecs st_numrecs]; lia.
-  - destruct (0 <? Zlen (ex_get ex)); cbn [fst set_mem st_numrecs]; lia.
+  intro H.
+  pose (a := mkwa 1 [2] true [-99]).
+  specialize (H fixed_then_record a fixed_then_record_ok). cbv zeta in H.
+  assert (E : ex_err (extract_reqs (fst (reach fixed_then_record)) (wa_n a) (wa_ids a) (wa_has_stat a) (wa_stat0 a)) = NC_NOERR)
+    by (vm_compute; reflexivity).
+  specialize (H E (znth (put_lead (ex_st (extract_reqs (fst (reach fixed_then_record)) (wa_n a) (wa_ids a) (wa_has_stat a) (wa_stat0 a)))) 1 dummy_lead)).
+  assert (C : l_max_rec (znth (put_lead (ex_st (extract_reqs (fst (reach fixed_then_record)) (wa_n a) (wa_ids a) (wa_has_stat a) (wa_stat0 a)))) 1 dummy_lead)
+              <= newnumrecs_loop_old (ex_st (extract_reqs (fst (reach fixed_then_record)) (wa_n a) (wa_ids a) (wa_has_stat a) (wa_stat0 a)))
+                                     (ex_nwl (extract_reqs (fst (reach fixed_then_record)) (wa_n a) (wa_ids a) (wa_has_stat a) (wa_stat0 a)))).
+  { apply H; vm_compute; [right; left; reflexivity | reflexivity | reflexivity]. }
+  vm_compute in C. apply C. reflexivity.
 Qed.
 
 (* ---------------------------------------------------------------- F2: reads *)
@@ -375,7 +355,7 @@ Lemma wait_one_unfold : forall sr ss st a file,
   wait_one sr ss st a file =
   (let ex := extract_reqs st (wa_n a) (wa_ids a) (wa_has_stat a) (wa_stat0 a) in
    let ci := commit_io sr ss (ex_st ex) (ex_put ex) (ex_get ex) (0 <? Zlen (ex_put ex)) (0 <? Zlen (ex_get ex))
-                       (newnumrecs_loop (ex_st ex) (ex_nwl ex)) file in
+                       (newnumrecs_loop (ex_st ex)) file in
    let cp := commit_post (fst ci) (ex_nwl ex) (ex_nrl ex) in
    (mkwr (fst cp) NC_NOERR (ex_ids ex) (ex_stat ex) (snd cp), snd ci)).
 Proof.
@@ -445,4 +425,365 @@ Proof.
     { apply Proofs_Disk.Zlen_zero_nil. pose proof (Proofs_Disk.Zlen_nonneg (ex_get ex)). lia. }
     rewrite Hnil in Hperm. cbn [map flat_map] in Hperm.
     apply Permutation_nil_pairs in Hperm. rewrite Hperm. apply disk_eq_refl.
+Qed.
+
+(* ====================================================================== *)
+(* Part 2c. The queue invariant over whole histories                        *)
+(* ====================================================================== *)
+From Pnc Require Import Proofs_NbQueue.
+
+(* the invariant (NbSpec.nb_inv + parity of the id counters) holds initially and is preserved by every
+   accepted post, every cancel, and every wait that returns NC_NOERR *)
+Theorem post_varm_preserves_inv : forall st k g start count stride xaddr data sw tag,
+  nb_inv_full st -> post_ok g start count stride ->
+  nb_inv_full (fst (fst (post_varm st k g start count stride xaddr data sw tag))).
+Proof. exact (post_varm_inv post_varm_reqs_ok). Qed.
+
+Theorem post_varn_preserves_inv : forall st k g parts xaddr data sw tag,
+  nb_inv_full st -> postn_ok g parts ->
+  nb_inv_full (fst (fst (post_varn st k g parts xaddr data sw tag))).
+Proof. exact (post_varn_inv post_varn_reqs_ok). Qed.
+
+Lemma extract_maxids : forall st n ids hs stat0,
+  maxPutID (ex_st (extract_reqs st n ids hs stat0)) = maxPutID st /\
+  maxGetID (ex_st (extract_reqs st n ids hs stat0)) = maxGetID st.
+Proof.
+  intros st n ids hs stat0. unfold extract_reqs.
+  destruct (n <? 0) eqn:E0.
+  - destruct ((n =? NC_PUT_REQ_ALL) || (n =? NC_REQ_ALL)); destruct ((n =? NC_GET_REQ_ALL) || (n =? NC_REQ_ALL)); split; reflexivity.
+  - destruct ((Zlen (get_reqs st) =? 0) && (n =? Zlen (put_lead st))); [split; reflexivity|].
+    destruct ((Zlen (put_reqs st) =? 0) && (n =? Zlen (get_lead st))); [split; reflexivity|].
+    destruct ((n =? Zlen (put_lead st) + Zlen (get_lead st)) && negb hs); [split; reflexivity|].
+    destruct (ex_mark ids 0 hs (put_lead st) (get_lead st) stat0 0 0 0 0 NC_NOERR)
+      as [[[[[[[pl1 gl1] stat1] nwl] nwr] nrl] nrr] err].
+    destruct (negb (err =? NC_NOERR)); [split; reflexivity|].
+    destruct (ex_copy ids pl1 gl1 (put_reqs st) (get_reqs st)) as [[ids' pe] ge].
+    destruct (if nwr =? 0 then (pl1, put_reqs st) else coalesce_nonlead pl1 (put_reqs st) 0) as [pl2 pr2].
+    destruct (if nrr =? 0 then (gl1, get_reqs st) else coalesce_nonlead gl1 (get_reqs st) 0) as [gl2 gr2].
+    split; reflexivity.
+Qed.
+
+Lemma commit_post_maxids : forall st nwl nrl,
+  maxPutID (fst (commit_post st nwl nrl)) = maxPutID st /\ maxGetID (fst (commit_post st nwl nrl)) = maxGetID st.
+Proof.
+  intros st nwl nrl. unfold commit_post.
+  destruct (nwl >? 0).
+  - destruct (compact_leads (put_lead st) (put_reqs st) 0 0) as [pl pr].
+    destruct (nrl >? 0).
+    + destruct (compact_leads _ _ 0 0) as [gl gr]. split; reflexivity.
+    + split; reflexivity.
+  - destruct (nrl >? 0).
+    + destruct (compact_leads (get_lead st) (get_reqs st) 0 0) as [gl gr]. split; reflexivity.
+    + split; reflexivity.
+Qed.
+
+Lemma commit_io_maxids : forall sr ss st pe ge dw dr nn file,
+  maxPutID (fst (commit_io sr ss st pe ge dw dr nn file)) = maxPutID st /\
+  maxGetID (fst (commit_io sr ss st pe ge dw dr nn file)) = maxGetID st.
+Proof.
+  intros. unfold commit_io. cbn [fst].
+  destruct dw, dr; cbn [andb]; try destruct (st_numrecs st <? nn); split; reflexivity.
+Qed.
+
+Lemma Forall2_nil_l : forall A B (R : A -> B -> Prop) l, Forall2 R [] l -> l = [].
+Proof. intros A B R l H. inversion H. reflexivity. Qed.
+
+Theorem wait_one_preserves_inv : forall sr ss st a file,
+  nb_inv_full st -> wr_rc (fst (wait_one sr ss st a file)) = NC_NOERR ->
+  nb_inv_full (wr_st (fst (wait_one sr ss st a file))).
+Proof.
+  intros sr ss st a file [Hinv Hmax] Hrc. split.
+  - apply wait_one_inv; assumption.
+  - assert (Herr : ex_err (extract_reqs st (wa_n a) (wa_ids a) (wa_has_stat a) (wa_stat0 a)) = NC_NOERR).
+    { unfold wait_one in Hrc.
+      destruct (negb (ex_err (extract_reqs st (wa_n a) (wa_ids a) (wa_has_stat a) (wa_stat0 a)) =? NC_NOERR)) eqn:E.
+      - cbn [fst wr_rc] in Hrc. rewrite Hrc in E. discriminate E.
+      - apply negb_false_iff in E. apply Z.eqb_eq in E. exact E. }
+    destruct (wait_one_leads sr ss st a file Hinv Hrc) as [Hpl Hgl].
+    destruct (extract_leads_same st (wa_n a) (wa_ids a) (wa_has_stat a) (wa_stat0 a)) as [Hsp Hsg].
+    apply (maxid_ok_shrink st); [exact Hmax | | | | ].
+    + rewrite (wait_one_unfold sr ss st a file Herr). cbv zeta. cbn [fst wr_st].
+      rewrite (proj1 (commit_post_maxids _ _ _)), (proj1 (commit_io_maxids _ _ _ _ _ _ _ _ _)).
+      apply extract_maxids.
+    + rewrite (wait_one_unfold sr ss st a file Herr). cbv zeta. cbn [fst wr_st].
+      rewrite (proj2 (commit_post_maxids _ _ _)), (proj2 (commit_io_maxids _ _ _ _ _ _ _ _ _)).
+      apply extract_maxids.
+    + destruct (put_lead st) as [|l0 r0] eqn:Ep; [left | right; discriminate].
+      rewrite Hpl. apply Forall2_nil_l in Hsp. rewrite Hsp. reflexivity.
+    + destruct (get_lead st) as [|l0 r0] eqn:Eg; [left | right; discriminate].
+      rewrite Hgl. apply Forall2_nil_l in Hsg. rewrite Hsg. reflexivity.
+Qed.
+
+(* a history in which every posted request is an accepted one and every wait returns NC_NOERR *)
+Fixpoint run_ok (sr : list areq -> list areq) (ss : list seg -> list seg) (sf : nbstate * disk) (ops : list nbop) : Prop :=
+  match ops with
+  | [] => True
+  | o :: r => nbop_ok o /\
+              (match o with
+               | NWait a => wr_rc (fst (wait_one sr ss (fst sf) a (snd sf))) = NC_NOERR
+               | _ => True
+               end) /\
+              run_ok sr ss (nb_step sr ss sf o) r
+  end.
+
+(* queue_inv over ALL histories (induction over the operation list) *)
+Theorem nb_run_inv : forall sr ss ops sf,
+  nb_inv_full (fst sf) -> run_ok sr ss sf ops -> nb_inv_full (fst (nb_run sr ss sf ops)).
+Proof.
+  intros sr ss ops. induction ops as [|o ops IH]; intros sf Hinv Hok; [exact Hinv|].
+  destruct Hok as (Hop & Hw & Hrest).
+  unfold nb_run. cbn [fold_left]. apply IH; [|exact Hrest].
+  destruct sf as [st f]. cbn [fst snd] in *. unfold nb_step.
+  destruct o as [k g s c t xa d sw tag | k g ps xa d sw tag | a | n ids s0]; cbn [nbop_ok] in Hop.
+  - cbn [fst]. apply post_varm_preserves_inv; assumption.
+  - cbn [fst]. apply post_varn_preserves_inv; assumption.
+  - pose proof (wait_one_preserves_inv sr ss st a f Hinv Hw) as Hp.
+    destruct (wait_one sr ss st a f) as [r f'] eqn:Ew. cbn [fst] in *. exact Hp.
+  - cbn [fst]. apply cancel_inv. exact Hinv.
+Qed.
+
+Corollary reachable_inv : forall ops, run_ok isort_reqs isort_segs (init_state, empty_disk) ops ->
+  nb_inv_full (fst (reach ops)).
+Proof. intros ops H. apply nb_run_inv; [exact nb_inv_full_init | exact H]. Qed.
+
+(* ---------------------------------------------------------------- a failed wait is NOT without effect *)
+(* full statement: a wait that returns an error leaves the queues as they were *)
+Definition failed_wait_no_effect_full : Prop :=
+  forall ops a file, Forall nbop_ok ops ->
+    let st := fst (reach ops) in
+    let r := fst (wait_one isort_reqs isort_segs st a file) in
+    wr_rc r <> NC_NOERR -> put_lead (wr_st r) = put_lead st /\ get_lead (wr_st r) = get_lead st.
+
+Definition two_puts_one_get : list nbop :=
+  two_puts ++ [NPostM KIget gA [3] [1] None 3000 [] false 2].
+Lemma two_puts_one_get_ok : Forall nbop_ok two_puts_one_get.
+Proof.
+  unfold two_puts_one_get. apply Forall_app. split; [exact two_puts_ok|].
+  apply Forall_cons; [|apply Forall_nil]. cbn [nbop_ok]. apply post_ok_gA; lia.
+Qed.
+
+(* witness: two puts and one get pending, wait(2, [0; 0]) (a duplicated id, no shortcut): NC_EINVAL_REQUEST,
+   but the request with id 0 keeps its NC_REQ_TO_FREE flag; naming it again can never succeed *)
+Theorem failed_wait_no_effect_refuted : ~ failed_wait_no_effect_full.
+Proof.
+  intro H.
+  pose (a := mkwa 2 [0; 0] true [-99; -99]).
+  specialize (H two_puts_one_get a empty_disk two_puts_one_get_ok).
+  cbv zeta in H.
+  assert (E : wr_rc (fst (wait_one isort_reqs isort_segs (fst (reach two_puts_one_get)) a empty_disk)) <> NC_NOERR)
+    by (vm_compute; discriminate).
+  destruct (H E) as [Hp _].
+  assert (C : l_to_free (hd dummy_lead (put_lead (wr_st (fst (wait_one isort_reqs isort_segs (fst (reach two_puts_one_get)) a empty_disk)))))
+              = l_to_free (hd dummy_lead (put_lead (fst (reach two_puts_one_get))))) by (rewrite Hp; reflexivity).
+  vm_compute in C. discriminate C.
+Qed.
+
+Example poisoned_request_cannot_be_completed :
+  let a := mkwa 2 [0; 0] true [-99; -99] in
+  let st1 := wr_st (fst (wait_one isort_reqs isort_segs (fst (reach two_puts_one_get)) a empty_disk)) in
+  wr_rc (fst (wait_one isort_reqs isort_segs st1 (mkwa 1 [0] true [-99]) empty_disk)) = NC_EINVAL_REQUEST
+  /\ nreqs st1 = 3.
+Proof. vm_compute. split; reflexivity. Qed.
+
+(* ---------------------------------------------------------------- numrecs after a wait (F1 fixed in /repo) *)
+Lemma commit_post_numrecs : forall st nwl nrl, st_numrecs (fst (commit_post st nwl nrl)) = st_numrecs st.
+Proof.
+  intros st nwl nrl. unfold commit_post.
+  destruct (nwl >? 0).
+  - destruct (compact_leads (put_lead st) (put_reqs st) 0 0) as [pl pr].
+    destruct (nrl >? 0).
+    + destruct (compact_leads _ _ 0 0) as [gl gr]. reflexivity.
+    + reflexivity.
+  - destruct (nrl >? 0).
+    + destruct (compact_leads (get_lead st) (get_reqs st) 0 0) as [gl gr]. reflexivity.
+    + reflexivity.
+Qed.
+
+Lemma slices_ok_lead_reqs_pos : forall leads reqs k i, 0 <= k -> slices_ok leads reqs k i ->
+  forall l, In l leads -> 0 < Zlen (lead_reqs reqs l).
+Proof.
+  induction leads as [|l0 leads IH]; intros reqs k i Hk Hs l Hin; [destruct Hin|].
+  cbn [slices_ok] in Hs. destruct Hs as (Hoff & Hnum & Hle & _ & Hrest).
+  destruct Hin as [E | Hin].
+  - subst l0. unfold lead_reqs, slice. rewrite Hoff.
+    rewrite Zlen_zfirstn; [lia|]. rewrite Zlen_zskipn by (pose proof (Proofs_Disk.Zlen_nonneg reqs); lia). lia.
+  - apply (IH reqs (k + l_nonlead_num l0) (i + 1)); [lia | exact Hrest | exact Hin].
+Qed.
+
+Lemma Forall2_In_zip_r : forall A B (R : A -> B -> Prop) (a : list A) (b : list B) y,
+  Forall2 R a b -> In y b -> exists x, In (x, y) (zip a b) /\ In x a.
+Proof.
+  intros A B R a b y H. induction H as [|x0 y0 a b Hr H IH]; intros Hin; [destruct Hin|].
+  cbn [zip]. destruct Hin as [E | Hin].
+  - subst y0. exists x0. split; left; reflexivity.
+  - destruct (IH Hin) as [x [H1 H2]]. exists x. split; right; assumption.
+Qed.
+
+Lemma flagged_put_extracted : forall st n ids hs stat0 l,
+  nb_inv st -> ex_err (extract_reqs st n ids hs stat0) = NC_NOERR ->
+  In l (flagged (put_lead (ex_st (extract_reqs st n ids hs stat0)))) ->
+  0 < Zlen (ex_put (extract_reqs st n ids hs stat0)).
+Proof.
+  intros st n ids hs stat0 l Hinv Herr Hl.
+  destruct (extract_put_slices st n ids hs stat0 Hinv Herr) as [Hperm _].
+  destruct (extract_leads_same st n ids hs stat0) as [Hsame _].
+  unfold flagged in Hl. apply filter_In in Hl. destruct Hl as [Hin Hf].
+  destruct (Forall2_In_zip_r _ _ _ _ _ l Hsame Hin) as [l0 [Hz Hl0]].
+  destruct Hinv as [[_ [_ [Hs _]]] _].
+  pose proof (slices_ok_lead_reqs_pos _ _ 0 0 ltac:(lia) Hs l0 Hl0) as Hpos.
+  apply Permutation_length in Hperm.
+  assert (Hge : (length (lead_reqs (put_reqs st) l0) <= length (ex_put (extract_reqs st n ids hs stat0)))%nat).
+  { rewrite Hperm.
+    set (F := fun p : lead * lead => if l_to_free (snd p) then lead_reqs (put_reqs st) (fst p) else []).
+    clear Hperm Hsame.
+    induction (zip (put_lead st) (put_lead (ex_st (extract_reqs st n ids hs stat0)))) as [|p z IHz]; [destruct Hz|].
+    cbn [flat_map]. rewrite app_length. destruct Hz as [E | Hz].
+    - subst p. unfold F at 1. cbn [fst snd]. rewrite Hf. lia.
+    - specialize (IHz Hz). lia. }
+  unfold Zlen in *. lia.
+Qed.
+
+(* FULL statement, proved (the library was repaired): after a successful wait the number of records covers
+   every completed put to a record variable *)
+Theorem numrecs_after_wait : forall sr ss st a file,
+  nb_inv st -> wr_rc (fst (wait_one sr ss st a file)) = NC_NOERR ->
+  forall l, In l (flagged (put_lead (ex_st (extract_reqs st (wa_n a) (wa_ids a) (wa_has_stat a) (wa_stat0 a))))) ->
+            g_isrec (l_geom l) = true ->
+            l_max_rec l <= st_numrecs (wr_st (fst (wait_one sr ss st a file))) /\
+            st_numrecs st <= st_numrecs (wr_st (fst (wait_one sr ss st a file))).
+Proof.
+  intros sr ss st a file Hinv Hrc l Hl Hrec.
+  assert (Herr : ex_err (extract_reqs st (wa_n a) (wa_ids a) (wa_has_stat a) (wa_stat0 a)) = NC_NOERR).
+  { unfold wait_one in Hrc.
+    destruct (negb (ex_err (extract_reqs st (wa_n a) (wa_ids a) (wa_has_stat a) (wa_stat0 a)) =? NC_NOERR)) eqn:E.
+    - cbn [fst wr_rc] in Hrc. rewrite Hrc in E. discriminate E.
+    - apply negb_false_iff in E. apply Z.eqb_eq in E. exact E. }
+  pose proof (flagged_put_extracted st _ _ _ _ l Hinv Herr Hl) as Hput.
+  rewrite (wait_one_unfold sr ss st a file Herr). cbv zeta. cbn [fst wr_st].
+  rewrite commit_post_numrecs.
+  set (ex := extract_reqs st (wa_n a) (wa_ids a) (wa_has_stat a) (wa_stat0 a)) in *.
+  assert (Hn0 : st_numrecs (ex_st ex) = st_numrecs st).
+  { unfold ex, extract_reqs.
+    destruct (wa_n a <? 0).
+    - destruct ((wa_n a =? NC_PUT_REQ_ALL) || (wa_n a =? NC_REQ_ALL)); destruct ((wa_n a =? NC_GET_REQ_ALL) || (wa_n a =? NC_REQ_ALL)); reflexivity.
+    - destruct ((Zlen (get_reqs st) =? 0) && (wa_n a =? Zlen (put_lead st))); [reflexivity|].
+      destruct ((Zlen (put_reqs st) =? 0) && (wa_n a =? Zlen (get_lead st))); [reflexivity|].
+      destruct ((wa_n a =? Zlen (put_lead st) + Zlen (get_lead st)) && negb (wa_has_stat a)); [reflexivity|].
+      destruct (ex_mark (wa_ids a) 0 (wa_has_stat a) (put_lead st) (get_lead st) (wa_stat0 a) 0 0 0 0 NC_NOERR)
+        as [[[[[[[pl1 gl1] stat1] nwl] nwr] nrl] nrr] err].
+      destruct (negb (err =? NC_NOERR)); [reflexivity|].
+      destruct (ex_copy (wa_ids a) pl1 gl1 (put_reqs st) (get_reqs st)) as [[ids' pe] ge].
+      destruct (if nwr =? 0 then (pl1, put_reqs st) else coalesce_nonlead pl1 (put_reqs st) 0) as [pl2 pr2].
+      destruct (if nrr =? 0 then (gl1, get_reqs st) else coalesce_nonlead gl1 (get_reqs st) 0) as [gl2 gr2].
+      reflexivity. }
+  unfold flagged in Hl. apply filter_In in Hl. destruct Hl as [Hin Hf].
+  destruct (newnumrecs_covers_flagged (ex_st ex) l Hin Hf Hrec) as [H1 H2].
+  unfold commit_io. cbn [fst].
+  replace (0 <? Zlen (ex_put ex)) with true by (symmetry; apply Z.ltb_lt; exact Hput).
+  cbn [andb].
+  destruct (st_numrecs (ex_st ex) <? newnumrecs_loop (ex_st ex)) eqn:Elt;
+    destruct (0 <? Zlen (ex_get ex)); cbn [set_mem set_numrecs st_numrecs]; lia.
+Qed.
+
+(* ====================================================================== *)
+(* Part 2d. collective wait of several processes                            *)
+(* ====================================================================== *)
+Lemma dk_write_cong : forall d d' o bs, disk_eq d d' -> disk_eq (dk_write d o bs) (dk_write d' o bs).
+Proof. intros d d' o bs H x. rewrite !dk_get_write. destruct ((o <=? x) && (x <? o + Zlen bs)); [reflexivity | apply H]. Qed.
+Lemma write_chunks_cong : forall b stream d d', disk_eq d d' -> disk_eq (write_chunks d b stream) (write_chunks d' b stream).
+Proof.
+  induction b as [|[o l] b IH]; intros stream d d' H; [exact H|].
+  cbn [write_chunks]. apply IH. apply dk_write_cong. exact H.
+Qed.
+Lemma mpi_write_cong : forall f f' mem t, disk_eq f f' -> disk_eq (mpi_write f mem t) (mpi_write f' mem t).
+Proof. intros f f' mem t H. unfold mpi_write. apply write_chunks_cong. exact H. Qed.
+Lemma write_pairs_cong : forall ps f f' mem, disk_eq f f' -> disk_eq (write_pairs f mem ps) (write_pairs f' mem ps).
+Proof.
+  induction ps as [|p ps IH]; intros f f' mem H; [exact H|].
+  unfold write_pairs in *. cbn [fold_left]. apply IH. apply dk_write_cong. exact H.
+Qed.
+
+(* the write of ONE process inside a wait, on any file *)
+Lemma rank_put_correct : forall sr ss st n ids hs stat0 f,
+  sorter_ok a_start sr -> sorter_ok s_off ss -> nb_inv st ->
+  ex_err (extract_reqs st n ids hs stat0) = NC_NOERR ->
+  NoDup (map fst (flat_map lead_pairs (flagged (put_lead (ex_st (extract_reqs st n ids hs stat0)))))) ->
+  disk_eq (mpi_write f (st_mem st) (aggregate sr ss (put_lead (ex_st (extract_reqs st n ids hs stat0)))
+                                              (ex_put (extract_reqs st n ids hs stat0))))
+          (fold_left (fun f l => blocking_put f (st_mem st) l)
+                     (flagged (put_lead (ex_st (extract_reqs st n ids hs stat0)))) f).
+Proof.
+  intros sr ss st n ids hs stat0 f Hsr Hss Hinv Herr Hnd.
+  rewrite fold_blocking_put.
+  destruct (wait_put_pairs st n ids hs stat0 Hinv Herr) as [Hwf Hperm].
+  set (ex := extract_reqs st n ids hs stat0) in *.
+  assert (Hnd' : NoDup (map fst (flat_map areq_pairs (map (annotate (put_lead (ex_st ex))) (ex_put ex))))).
+  { eapply Permutation_NoDup; [|exact Hnd]. apply Permutation_map. apply Permutation_sym. exact Hperm. }
+  eapply disk_eq_trans.
+  - apply commit_stream_correct_write; assumption.
+  - apply write_pairs_perm; assumption.
+Qed.
+
+Lemma existsb_false_Forall : forall A (p : A -> bool) l, Forall (fun x => p x = false) l -> existsb p l = false.
+Proof. intros A p l H. induction H as [|x l Hx H IH]; [reflexivity|]. cbn [existsb]. rewrite Hx, IH. reflexivity. Qed.
+
+(* collective wait (ncmpi_wait_all) of any number of processes with any arguments per process: when every
+   process's extraction succeeds and no process writes a file byte twice, the file is what the blocking puts
+   give, process after process (the MPI-IO model of this development applies the file views in rank order) *)
+Theorem wait_coll_refines_blocking_put : forall sr ss (sa : list (nbstate * waitargs)) file,
+  sorter_ok a_start sr -> sorter_ok s_off ss ->
+  Forall (fun p => nb_inv (fst p)) sa ->
+  Forall (fun p => ex_err (extract_reqs (fst p) (wa_n (snd p)) (wa_ids (snd p)) (wa_has_stat (snd p)) (wa_stat0 (snd p))) = NC_NOERR) sa ->
+  Forall (fun p => NoDup (map fst (flat_map lead_pairs (flagged (put_lead (ex_st
+            (extract_reqs (fst p) (wa_n (snd p)) (wa_ids (snd p)) (wa_has_stat (snd p)) (wa_stat0 (snd p))))))))) sa ->
+  disk_eq (snd (wait_coll sr ss (map fst sa) (map snd sa) file))
+          (fold_left (fun f p =>
+              fold_left (fun f l => blocking_put f (st_mem (fst p)) l)
+                        (flagged (put_lead (ex_st (extract_reqs (fst p) (wa_n (snd p)) (wa_ids (snd p)) (wa_has_stat (snd p)) (wa_stat0 (snd p))))))
+                        f)
+            sa file).
+Proof.
+  intros sr ss sa file Hsr Hss Hinv Herr Hnd.
+  unfold wait_coll.
+  assert (Hzip : zip (map fst sa) (map snd sa) = sa).
+  { clear. induction sa as [|[s a] sa IH]; [reflexivity|]. cbn [map zip fst snd]. rewrite IH. reflexivity. }
+  rewrite Hzip.
+  set (EX := fun p : nbstate * waitargs => extract_reqs (fst p) (wa_n (snd p)) (wa_ids (snd p)) (wa_has_stat (snd p)) (wa_stat0 (snd p))).
+  assert (Hany : existsb (fun ex => negb (ex_err ex =? NC_NOERR)) (map EX sa) = false).
+  { apply existsb_false_Forall. apply Forall_map. eapply Forall_impl; [|exact Herr].
+    intros p Hp. cbv beta. unfold EX. rewrite Hp. reflexivity. }
+  change (map (fun p : nbstate * waitargs => extract_reqs (fst p) (wa_n (snd p)) (wa_ids (snd p)) (wa_has_stat (snd p)) (wa_stat0 (snd p))) sa)
+    with (map EX sa).
+  rewrite Hany. cbn [snd].
+  set (dw := existsb (fun ex => 0 <? Zlen (ex_put ex)) (map EX sa)).
+  (* general statement over the list of processes and any starting file *)
+  assert (G : forall (l : list (nbstate * waitargs)) f f',
+             Forall (fun p => nb_inv (fst p)) l -> Forall (fun p => ex_err (EX p) = NC_NOERR) l ->
+             Forall (fun p => NoDup (map fst (flat_map lead_pairs (flagged (put_lead (ex_st (EX p))))))) l ->
+             (dw = false -> Forall (fun p => ex_put (EX p) = []) l) ->
+             disk_eq f f' ->
+             disk_eq (fold_left (fun f ex => if dw then mpi_write f (st_mem (ex_st ex)) (aggregate sr ss (put_lead (ex_st ex)) (ex_put ex)) else f)
+                                (map EX l) f)
+                     (fold_left (fun f p => fold_left (fun f l => blocking_put f (st_mem (fst p)) l) (flagged (put_lead (ex_st (EX p)))) f) l f')).
+  { induction l as [|p l IH]; intros f f' Hi He Hn Hd Hff; [exact Hff|].
+    cbn [map fold_left]. inversion Hi as [|? ? Hi1 Hi2]; subst. inversion He as [|? ? He1 He2]; subst.
+    inversion Hn as [|? ? Hn1 Hn2]; subst.
+    apply IH; try assumption.
+    - intros Hdw. specialize (Hd Hdw). inversion Hd; assumption.
+    - destruct dw eqn:Edw.
+      + unfold EX at 1 2 3. rewrite extract_mem.
+        eapply disk_eq_trans; [apply mpi_write_cong; exact Hff|].
+        apply rank_put_correct; assumption.
+      + specialize (Hd eq_refl). inversion Hd as [|? ? Hd1 Hd2]; subst.
+        destruct (wait_put_pairs (fst p) (wa_n (snd p)) (wa_ids (snd p)) (wa_has_stat (snd p)) (wa_stat0 (snd p)) Hi1 He1) as [_ Hperm].
+        fold (EX p) in Hperm. rewrite Hd1 in Hperm. cbn [map flat_map] in Hperm.
+        apply Permutation_nil_pairs in Hperm.
+        rewrite fold_blocking_put. rewrite Hperm. exact Hff. }
+  apply G; try assumption.
+  - intros Hdw. unfold dw in Hdw.
+    clear -Hdw. induction sa as [|p sa IH]; [constructor|].
+    cbn [map existsb] in Hdw. apply orb_false_iff in Hdw. destruct Hdw as [H1 H2].
+    constructor; [|apply IH; exact H2].
+    apply Proofs_Disk.Zlen_zero_nil. pose proof (Proofs_Disk.Zlen_nonneg (ex_put (EX p))). apply Z.ltb_ge in H1. lia.
+  - apply disk_eq_refl.
 Qed.
